@@ -85,6 +85,16 @@ class SDict:
         return f"SDict({list(self.items)})"
 
 
+class PairList:
+    """dict literal with symbolic keys: a fixed-length association list"""
+
+    def __init__(self, pairs):
+        self.pairs = list(pairs)
+
+    def __repr__(self):
+        return f"PairList({len(self.pairs)})"
+
+
 class Ctx:
     """what a contract clause sees"""
 
